@@ -29,5 +29,15 @@ PROPS = {
     },
 }
 
+PROPS["C16"] = {
+    "level_text": "Theorems on statement-level models of the parsers (checked slices: a Go panic is a model panic): tree round-trip parse(ser es) = es for every storable entry list, totality (no panic) of tree/commit/tag/batch-header/reference parsers on ALL byte strings, termination by a consumed-bytes measure; correspondence on structured objects (gpgsig/mergetag blocks, messages imitating headers, odd modes, arbitrary name bytes) and a mutation stream (truncation at every byte, flips, splices).",
+    "level_note": "Trusted: Lean kernel; the hand-written models are tied to git/*.go by differential testing only (bounded by the generators); Go's strconv.ParseUint / hex.DecodeString are modelled.",
+    "technique": "Lean 4 proof on parser models + differential correspondence",
+    "modules": ["GitSizer.Props.C16"],
+    "engines": [{"name": "parsers", "quick": 40000, "thorough": 4000000, "per_shard": 20000}],
+    "rule": "kinds tree/commit/tag/batch/ref/oid; half structured (well-formed objects judged against the grammar), half mutated (judged for totality and model agreement); distinct = distinct (kind, bytes); non-trivial = every case (each is a fresh object or mutation).",
+    "assumptions": ["commit/tag exactness on well-formed objects is judged by the engine (grammar serialiser) and not yet a theorem"],
+}
+
 NOT_APPLICABLE = {p: "check under construction in this commit; see DESIGN.md §8 for the planned machinery" for p in
                   ["C%02d" % i for i in range(1, 20)]}
